@@ -234,7 +234,8 @@ func H10_seq() {
 	buildB := func(tag string) {
 		docs, sp := vGenBatch(gCfg{prefix: "b", idBase: "b", nDocs: vChoice("bDocs", 1+vParam("bMax", 2)), wide: -1, noFx: true,
 			fields: []gField{
-				{name: "f", terms: []string{"a"}, tv: true, maxLocs: 1, store: true},
+				// (bLocs > 1: B has more locations on one term than A has in total - the builder's backing arrays grow)
+				{name: "f", terms: []string{"a"}, tv: true, maxLocs: vParam("bLocs", 1), fixLocs: vParam("bLocs", 1) > 1, store: true},
 				{name: "g", terms: []string{"c"}},
 				{name: "h", terms: []string{"e"}, dv: true, always: true, allTerm: true, fixFreq: true},
 			}})
